@@ -31,6 +31,10 @@ def build_case(cid, rng):
     ty_f, ctor_f, name_acc = SHAPES[shape]
     cty = ty_f(cid)
     m = tg.random_method(rng, "subj", allow_async=True, allow_generic=rng.random() < 0.5, max_arity=4)
+    if m.mconst:
+        # (the hand-written adoption below names the lifted type parameter only)
+        m.mconst = None
+        m.params = [p_ for p_ in m.params if p_.generic != "[u8; KM]"]
     # a generic (non-deps) type parameter of the fn is lifted to the leaf trait: `trait Subj<M>`
     targs = "<i32>" if m.mgenerics else ""
     impl_g = ("<" + ", ".join("%s: %s" % (n_, " + ".join(b_)) for n_, b_ in m.mgenerics) + ">") if m.mgenerics else ""
@@ -62,7 +66,9 @@ def build_case(cid, rng):
             m.lifetimes.append("'b")
             m.params.append(Param(TYPES["str"], "plain", ["zz"], generic="&'b str"))
         where = " where 'b: 'a"
-    opts = rng.choice([[], [], ["?Send"] if False else [], ["export"], ["mockall = false"], ["unimock = false"], ["debug = false"]])
+    # (a mock derivation without `export` is gated by cfg(test): inert in this build, and it must not change the leaf trait's impls)
+    opts = rng.choice([[], [], ["?Send"] if False else [], ["export"], ["mockall = false"], ["unimock = false"], ["debug = false"],
+                       ["mockall"], ["mockall = true"], ["mock_api = SubjMock", "unimock = true"]])
     L = [DEFS] + tg.support_for([m])
     L.append("#[::entrait::entrait(%s)] /*@inv*/" % ", ".join(["pub Subj"] + opts))
     g = m.generics_text()
